@@ -131,6 +131,14 @@ func Judge(want *ref.Result, got *drive.Real) (string, string, Info) {
 		// the object never reaches the client: an ancestor was removed by null propagation after
 		// the group had been started
 		if nullAncestor(merged, p.Path) {
+			// Which failure removed the object? When every error of the initial payload that lies under
+			// the nulled position also lies under the group's own object, the object itself was invalid
+			// (a non-deferred field of it failed): its groups must never have been started. That is a
+			// different defect from the recorded one (object valid when the group started, an ancestor
+			// nulled later by a failure elsewhere), so it is not reported under that signature.
+			if ownFailure(merged, p.Path, first.Errors) {
+				return "", fmt.Sprintf("incremental payload %d (path %s, label %q) was produced for an object that is null in the response because of a failure inside that object itself (non-deferred part): its deferred groups must not be started", i, pathKey(p.Path), p.Label), in
+			}
 			in.UnderNulled++
 			nulledSig = "deferred-group-delivered-under-nulled-ancestor"
 			nulledWhy = fmt.Sprintf("incremental payload %d (path %s, label %q) belongs to an object that null propagation removed from the response: a client can never find its path", i, pathKey(p.Path), p.Label)
@@ -154,6 +162,43 @@ func Judge(want *ref.Result, got *drive.Real) (string, string, Info) {
 		return "", "merged result is not explained by the plain result plus null propagation stopping at a deferred group's object: " + d, in
 	}
 	return nulledSig, nulledWhy, in
+}
+
+// ownFailure: path is under a null of root; do all initial errors under that null lie under path itself?
+func ownFailure(root *sjson.Value, path []any, errs []ref.ErrExp) bool {
+	nullAt := 0
+	for l := 1; l <= len(path); l++ {
+		if v := resolve(root, path[:l]); v != nil && v.Kind == sjson.Null {
+			nullAt = l
+			break
+		}
+	}
+	if root == nil || root.Kind == sjson.Null {
+		nullAt = 0
+	}
+	under := func(p, prefix []any) bool {
+		if len(p) < len(prefix) {
+			return false
+		}
+		for i := range prefix {
+			if fmt.Sprint(p[i]) != fmt.Sprint(prefix[i]) {
+				return false
+			}
+		}
+		return true
+	}
+	n := 0
+	for _, e := range errs {
+		ep := parsePath(e.Path)
+		if !under(ep, path[:nullAt]) {
+			continue
+		}
+		n++
+		if !(under(ep, path) && len(ep) > len(path)) {
+			return false
+		}
+	}
+	return n > 0
 }
 
 // nullAncestor reports whether some proper prefix of path resolves to null in root.
